@@ -478,6 +478,12 @@ func (conn *Conn) postConnect(ctx context.Context, start bool) {
 			conn.wg.Add(1)
 			go conn.ping(ctx)
 		}
+		// Whatever the goroutines above are blocked on (a full queue, a
+		// socket write), cancelling the context must end this connection.
+		go func(sock net.Conn) {
+			<-ctx.Done()
+			conn.close(sock)
+		}(conn.sock)
 	}
 }
 
